@@ -26,6 +26,11 @@ pub struct C01Case {
 fn gen_long_word(src: &mut Source, lang: &str) -> String {
     let plain = plain_letters(lang);
     let n = *src.pick(&[15usize, 19, 20, 21, 22, 23, 31, 34, 50, 77, 105]) + src.below(3);
+    if src.chance(1, 3) {
+        // an unbroken run of letters of another script (multi-byte encodings)
+        let n = *src.pick(&[8usize, 16, 17, 21, 22, 25, 32, 33, 40, 64, 65]) + src.below(2);
+        return gen_script_word(src, n);
+    }
     let k = src.range(2, 8);
     (0..n).map(|_| plain[src.below(k)]).collect()
 }
